@@ -4,6 +4,7 @@
 mod dynops;
 mod expr;
 mod fuzz;
+mod lex;
 mod term;
 mod util;
 
@@ -15,6 +16,8 @@ fn main() {
     let code = match mode {
         "expr" => expr::main(rest),
         "fuzz-expr" => fuzz::main(rest),
+        "lex" => lex::main(rest),
+        "tables" => fuzz::main_tables(rest),
         _ => {
             eprintln!("usage: recorder <expr> [options]");
             2
